@@ -35,6 +35,8 @@ ops, adapter side:
   split   z0 (is_0rtt)   zacc (was 0-RTT accepted)
   dgs:sid:n:seed[:cut,cut…]  send_datagram (the payload a multi-chunk Buf when cuts are given)
   dgr1 / dgr  poll_incoming_datagram once / awaited     dgrd  … and decoded by h3-datagram -> dgrd=<sid>:<len>:<hash>
+  sdm:n:seed:cut,cut…  the Chain variant of sd: a uni stream typed for a multi-chunk Buf is opened through the Connection,
+         one DATA frame with the payload cut at these positions written (send_data + awaited poll_ready) and finished -> sdm=<id>
   dgmax  Quinn's max_datagram_size() right now (cfg `dgmax=<n>` = what the line says it is: the environment parameter of
          the model; with it MTU discovery is off and the path MTU is `mtu=<n>`, default 1200)     dgh  drop both handlers
 ops, raw Quinn peer:
@@ -736,6 +738,27 @@ class Gen:
         ops += ["dgr1", "dgmax"]
         return "quinn %s %s" % (cfg, " ".join(ops))
 
+    def t_chunked_frame(self):
+        """the `Chain` variant of sd: a DATA frame whose payload Buf has several chunks goes through send_data / the write
+        loop of poll_ready on a stream typed for that Buf; the peer reads exactly header + flattened payload (default
+        windows: the frame fits, the peer reads afterwards)."""
+        r = self.rng
+        cfg, shape = self.cfg(send=r.random() < 0.5, recv=r.random() < 0.5, skip_max=3)
+        ops = []
+        k = 0
+        for _ in range(r.randrange(1, 4)):
+            if r.random() < 0.3:
+                ops += ["ou:%s" % self.who(), "otag:%d:%d" % (r.choice([0, 1, 50]), self.seed())]
+                k += 1
+            n = r.choice([2, 3, 5, 64, 1000, 16384, 70000])
+            cuts = sorted(r.sample(range(1, n), min(n - 1, r.choice([1, 1, 2, 3, 4]))))
+            if r.random() < 0.3:
+                cuts = sorted(set([1, n - 1] + cuts))      # a one-byte chunk first and last
+            ops.append("sdm:%d:%d:%s" % (n, self.seed(), ",".join(str(c) for c in cuts)))
+            k += 1
+        ops.append("pacc:uni:%d" % k)
+        return "quinn %s %s" % (cfg, " ".join(ops))
+
     def t_special(self):
         """connection set-ups in which real Quinn raises the conditions a well-behaved peer never causes:
         rej   the client aborts the handshake (bad certificate) after the adapter side took the connection in
@@ -828,7 +851,7 @@ class C17(Prop):
             "carries a code / every accept and open call site (Connection, opener(), clone; polled once and awaited) after peer "
             "close, idle timeout and own close on every connection shape; second part: unframed fidelity / unframed "
             "partial writes / poll_send guard / poll_send errors / opening under stream limits / open+accept after failure / "
-            "close(code, reason) / accepting / datagrams / datagrams at Quinn's max_datagram_size() (probed per path MTU, carried by "
+            "close(code, reason) / accepting / datagrams / DATA frames over a multi-chunk payload Buf (sdm) / datagrams at Quinn's max_datagram_size() (probed per path MTU, carried by "
             "the line as dgmax=, reported by the harness on every such case: sizes 0, 1, max-2..max+2, several outstanding, handlers "
             "re-created, multi-chunk payload Buf, the receive direction decoded) / special handshakes (rej kill z0 z0r z0t z0v); the bidirectional stream "
             "under test is left unsplit in about a third of the cases; parameters from the seeded PRNG; "
@@ -960,6 +983,8 @@ class C17(Prop):
             L.append(g.t_accept())
         for _ in range(20 * m):
             L.append(g.t_datagram())
+        for _ in range(15 * m):
+            L.append(g.t_chunked_frame())
         for _ in range(40 * m):
             x = g.t_datagram_sizes()
             if x is not None:
